@@ -8,15 +8,15 @@ TB = "rustc nightly MIR as extracted by engines/mirfacts (resolved callees, -Zmi
 
 CLAIMED = {
  "C04": dict(level="other", technique="static analysis: who-writes query + path-sensitive must-guard dataflow + dominance/post-dominance pairing over rustc MIR",
-   text="Decides the structural clauses of C04 for all inputs/histories: the input image has exactly one (guarded) writer; the copy is guarded on every path class by state, reply kind, status, exact length and the request-side service selector; FDL reply admission and DP routing guards; DataExchanged iff update; request PDU = output image under Operate. Does not re-prove byte equality of copy_from_slice (library contract).",
+   text="Decides the structural clauses of C04 for all inputs/histories: the input image has exactly one (guarded) writer; the copy is guarded on every path class by state, reply kind, status, exact length and the request-side service selector; FDL reply admission and DP routing guards; DataExchanged iff update; request PDU = output image under Operate. Does not re-prove byte equality of copy_from_slice (library contract). The mutable view of pi_i may only become the destination of the guarded reply copy (no fill / other writer).",
    note="Trusted: " + TB + "; copy_from_slice contract. Clause keys are semantic (fields, callees, variants), never line numbers.", ref="§4-C04"),
 
  "C03": dict(level="other", technique="static analysis: typestate edge extraction from stores (must-guard dataflow with mod-set kill), request/SAP table extraction, writer-table agreement with exact-execution counters over rustc MIR",
-   text="Decides for all reply/loss/fault histories of one peripheral: every store to the bring-up state is an edge whose rank rise is at most one and which carries its acknowledgement guard (accepted diagnostics / short confirmation / the four readiness flag tests by PROFIBUS bit value); constructors start Offline and re-addressing resets; per-state request table (SAPs, service, addresses); Set_Prm/Chk_Cfg octet layout with every optional bit written exactly when configured. Does not decide the watchdog factor arithmetic or multi-peripheral interleavings.",
+   text="Decides for all reply/loss/fault histories of one peripheral: every store to the bring-up state is an edge whose rank rise is at most one and which carries its acknowledgement guard (accepted diagnostics / short confirmation / the four readiness flag tests by PROFIBUS bit value); constructors start Offline and re-addressing resets; per-state request table (SAPs, service, addresses); Set_Prm/Chk_Cfg octet layout with every optional bit written exactly when configured. Does not decide the watchdog factor arithmetic or multi-peripheral interleavings. Also: a non-None result of handle_diagnostics_response implies that this reply's diagnostics were stored on the same path (no stale diagnostics for a short confirmation).",
    note="Trusted: " + TB + "; rules/spec_tables.json (DP-V0 constants).", ref="§4-C03"),
 
  "C08": dict(level="other", technique="static analysis: path-sensitive dataflow with per-path event counters (retry +1/0, fcb.cycle exactly-once by exit class, helper summaries), who-writes on service selector fields, constant table extraction over rustc MIR",
-   text="Decides per-path pairing clauses for every loss/reply history of one peripheral: retry counter +1 on every transmitting exit and 0 on every other, Offline only under retry_count > max_retry_limit and never a send above the limit, fcb.cycle() exactly once on accepting exits and never on rejecting ones (through the diagnostics helper by summary), Offline implies FCB reset, the service selector latched by the transmit handler is not writable through the public API, FrameCountBit tables, FDL reply admission. Does not decide the global multi-peripheral trace property.",
+   text="Decides per-path pairing clauses for every loss/reply history of one peripheral: retry counter +1 on every transmitting exit and 0 on every other, Offline only under retry_count > max_retry_limit and never a send above the limit, fcb.cycle() exactly once on accepting exits and never on rejecting ones (through the diagnostics helper by summary), Offline implies FCB reset, the service selector latched by the transmit handler is not writable through the public API, FrameCountBit tables, FDL reply admission. Does not decide the global multi-peripheral trace property. The retry counter is written only by the transmit and reply handlers.",
    note="Trusted: " + TB + "; rules/spec_tables.json (FCB discipline).", ref="§4-C08"),
  "C10": dict(level="proof", technique="static analysis: interval+zone abstract interpretation of rustc MIR (bounds/overflow/slice obligations), path-sensitive must-guard dataflow for acceptance guards and a closed world of None/Err verdicts",
    text="Totality of the three decoder functions is proved for every input slice (all Assert and slice-API obligations discharged by the zone domain; reported length within the input; no loops). Acceptance guards (both start delimiters, both length bytes, FC, checksum byte and range, end delimiter) hold on every accepting path class; every None/Err verdict matches an enumerated frame-format reason. The single-byte-corruption (Hamming) argument is not decided.",
@@ -26,21 +26,21 @@ CLAIMED = {
    text="Function-code round trip is established for all 84 request/response codes by enumerating the extracted tables (discriminants = PROFIBUS code points, from_u8 exact inverses, writer bit layout vs reader masks/shifts, FCB tables). Frame-format selection, telegram_len, reader format table, extension bits, header octet offsets, checksum range, ED/SC/SD4 constants and reported byte counts agree between writer and reader; every reject/wait condition of the reader is a frame-format violation. Payload bytes are copied verbatim by the slice API (not re-proved).",
    note="Trusted: " + TB + "; rules/spec_tables.json; numdom for absolute store offsets; memcpy contract.", ref="§4-C09"),
  "C17": dict(level="proof", technique="static analysis: interval+zone abstract interpretation with an inductive field invariant (length <= len(buffer)) proved over all writers, per-path counters, table extraction and sibling-decoder comparison over rustc MIR",
-   text="Every bounds/slice/overflow obligation of ExtDiagBlockIter::next, raw_diag_buffer and fill is discharged for every buffer content under the proven invariant; every yielded block advances the cursor by >= 1 and None is terminal; block-kind / length-mask / channel-field / data-type / error tables match DP-V0; the peripheral's and the scanner's 6-byte header decoders extract identical fields with identical guards and keep every flag bit; fill copies only what fits.",
+   text="Every bounds/slice/overflow obligation of ExtDiagBlockIter::next, raw_diag_buffer and fill is discharged for every buffer content under the proven invariant; every yielded block advances the cursor by >= 1 and None is terminal; block-kind / length-mask / channel-field / data-type / error tables match DP-V0; the peripheral's and the scanner's 6-byte header decoders extract identical fields with identical guards and keep every flag bit; fill copies only what fits. The Vendor / Reserved payload ranges of ChannelError are compared numerically with the specification (16..=31 manufacturer specific).",
    note="Trusted: " + TB + "; numdom transfer functions; ManagedSlice Deref length stability; rules/spec_tables.json.", ref="§4-C17"),
 
  "C16": dict(level="other", technique="static analysis: drop-count table extraction per decoder verdict (path-sensitive facts on discriminants), loop-condition and dependency checks, zone-domain obligations of the decoder, PHY read-position dependency over rustc MIR",
-   text="Decides the structural clauses behind chunking independence: per decoder verdict the provided receive helpers drop 0 / everything / exactly the decoded length and deliver the telegram exactly once; is_last is exactly (length == buffered); receive_all_telegrams loops iff not last and returns the final result; decoder verdict clauses shared with C10; the simulator and serial PHYs advance their read position by exactly the returned count. The end-to-end relation over all chunkings follows on paper from these clauses and is not re-proved.",
+   text="Decides the structural clauses behind chunking independence: per decoder verdict the provided receive helpers drop 0 / everything / exactly the decoded length and deliver the telegram exactly once; is_last is exactly (length == buffered); receive_all_telegrams loops iff not last and returns the final result; decoder verdict clauses shared with C10; the simulator and serial PHYs advance their read position by exactly the returned count. The end-to-end relation over all chunkings follows on paper from these clauses and is not re-proved. Imports C10 a.length and the C09 reader table: the byte count dropped for an accepted telegram is its frame length.",
    note="Trusted: " + TB + ".", ref="§4-C16"),
  "C18": dict(level="other", technique="static analysis: inductive interval invariant (cursor in 0..=125) proved by the zone domain over all writers, per-path counters for event/bitset and sweep-flag pairing, FDL admission guards over rustc MIR",
-   text="Decides: only addresses 0..=125 are ever probed (inductive invariant of the sweep cursor over every writer, probe destination = cursor, source = own address); Lost only for known addresses together with clearing the bit, Discovered/Found only for unknown addresses together with setting it (the DP scanner adds an address only with a Found event); one probe per address per sweep (done-flag pairing); replies admitted only from the probed address. Convergence over whole histories is not decided.",
+   text="Decides: only addresses 0..=125 are ever probed (inductive invariant of the sweep cursor over every writer, probe destination = cursor, source = own address); Lost only for known addresses together with clearing the bit, Discovered/Found only for unknown addresses together with setting it (the DP scanner adds an address only with a Found event); one probe per address per sweep (done-flag pairing); replies admitted only from the probed address. Convergence over whole histories is not decided. Imports C11's slot-expiry definition: a reply is declared missing only a slot time after the last bus activity, also when partially received.",
    note="Trusted: " + TB + "; bitvec get/set semantics; numdom transfer functions.", ref="§4-C18"),
 
  "C11": dict(level="other", technique="static analysis: interprocedural path-sensitive variant (typestate) analysis of poll() with a fully non-deterministic environment, must-guard dataflow at acceptance/supervision sites, table extraction over rustc MIR",
-   text="Decides every rule of the statement as a typestate or guard fact of the single station for all histories: the token is taken only from ActiveIdle/PassToken(alone)/AwaitDataResponse and never within a poll that starts in ListenToken; both acceptance sites require token kind, foreign sender, own destination, last telegram and predecessor-or-repeated-candidate; declined sender recorded, ActiveIdle entered without candidate; retry/removal only after slot expiry with the attempt table First->Second->Third->remove+First; one removal site, successor only; attempt carried unchanged; token addressed to successor; alone keeps token. The duration of the slot is checked as a dependency on slot_time(), not as a number.",
+   text="Decides every rule of the statement as a typestate or guard fact of the single station for all histories: the token is taken only from ActiveIdle/PassToken(alone)/AwaitDataResponse and never within a poll that starts in ListenToken; both acceptance sites require token kind, foreign sender, own destination, last telegram and predecessor-or-repeated-candidate; declined sender recorded, ActiveIdle entered without candidate; retry/removal only after slot expiry with the attempt table First->Second->Third->remove+First; one removal site, successor only; attempt carried unchanged; token addressed to successor; alone keeps token. The duration of the slot is checked as a dependency on slot_time(), not as a number. Also: the CheckTokenPass receive callback leaves the state on every path taken for the first telegram heard; transition_active_idle is never called in typestate ActiveIdle (the recorded candidate predecessor survives).",
    note="Trusted: " + TB + "; callback contracts of receive_telegram / receive_all_telegrams / transmit_telegram (structure checked by C16).", ref="§4-C11"),
  "C14": dict(level="other", technique="static analysis: loop-progress cut-set check, per-path and per-iteration event counters in the path-sensitive dataflow, typestate edges of peripheral events, who-consumes-result check over rustc MIR",
-   text="Decides: the DP master's slot loop advances the cycle state on every path around the loop (turn always ends, also with zero peripherals); no assertion on the number of peripheral events; cycle_completed is stored true exactly when the slot iteration reported the end of the pass and the iteration's verdict is always consumed; exactly one events-slot store before every return and an event obtained on a path is the one stored; peripheral events are raised only on their life-cycle edges; is_live/is_running tables; one Offline per drop-out (retry pairing). Slot order under storage mutation mid-cycle is not decided.",
+   text="Decides: the DP master's slot loop advances the cycle state on every path around the loop (turn always ends, also with zero peripherals); no assertion on the number of peripheral events; cycle_completed is stored true exactly when the slot iteration reported the end of the pass and the iteration's verdict is always consumed; exactly one events-slot store before every return and an event obtained on a path is the one stored; peripheral events are raised only on their life-cycle edges; is_live/is_running tables; one Offline per drop-out (retry pairing). Slot order under storage mutation mid-cycle is not decided. The cycle position is written only by the slot iteration itself (who-writes); the end-of-pass verdict cannot be lost across a turn of the slot loop.",
    note="Trusted: " + TB + "; PeripheralSet::get_next_index returns a later slot or None.", ref="§4-C14"),
 
  "C12": dict(level="proof", technique="static analysis: zone-domain proof of the next_gap_poll post-condition with path partitioning; provenance by per-iteration counters in the current-state dataflow; typestate (interprocedural variant analysis) and must-guard dataflow over rustc MIR",
@@ -54,7 +54,7 @@ CLAIMED = {
    note="Trusted: " + TB + "; callback contracts of the provided PHY helpers (checked by C16).", ref="§4-C15"),
 
  "C01": dict(level="other", technique="static analysis: transmit-site typestates from the interprocedural variant analysis, interprocedural must-guard (sync pause) check, per-path event marks with result correlation (one transmission per poll), dependency/value-term checks for mark_tx and the 33/11-bit constants over rustc MIR",
-   text="Decides the single-station structural clauses: every PHY transmission happens in an allowed typestate (token / GAP request in ClaimToken|PassToken, status reply in ListenToken|ActiveIdle with a recorded request addressed to this station, application telegram in UseToken; claim only after the silence time-out); every transmission is preceded in the same poll by the 33-bit synchronisation pause, the dispatch by the ongoing-transmission check and the RX-activity update; no second transmission per poll; the byte count of each transmission reaches mark_tx = now + bits_to_time(11*bytes); time-out stagger depends on address and slot time; single bit/time conversion. Collision freedom between several independently scheduled stations and µs timing are NOT decided (schedules of independent processes).",
+   text="Decides the single-station structural clauses: every PHY transmission happens in an allowed typestate (token / GAP request in ClaimToken|PassToken, status reply in ListenToken|ActiveIdle with a recorded request addressed to this station, application telegram in UseToken; claim only after the silence time-out); every transmission is preceded in the same poll by the 33-bit synchronisation pause, the dispatch by the ongoing-transmission check and the RX-activity update; no second transmission per poll; the byte count of each transmission reaches mark_tx = now + bits_to_time(11*bytes); time-out stagger depends on address and slot time; single bit/time conversion. Collision freedom between several independently scheduled stations and µs timing are NOT decided (schedules of independent processes). Added after the second seeding round: every callback that is handed a received telegram resets the pending-byte count on all paths; a status reply is followed on every path by clearing the recorded request (or replacing the state).",
    note="Trusted: " + TB + "; rules/spec_tables.json; callback contracts of the provided PHY helpers.", ref="§4-C01"),
 
  "C05": dict(level="other", technique="static analysis: R-PANIC inventory over the call graph of poll() (panic calls, Assert terminators, may-panic std/bitvec calls) discharged by interprocedural typestate unreachability, interval+zone abstract interpretation with call-site / type-invariant / higher-order-buffer hypotheses, must-guards and delegated totality clauses; R-LOOP termination arguments; who-writes support checks over rustc MIR",
@@ -64,7 +64,7 @@ CLAIMED = {
    text="Decides `never panics` for the hand-written parser: every panic source reachable from parse()/parse_with_warnings() (panic!/unreachable!/assert!, unwrap/expect, Assert terminators, integer +, from_str_radix) is shown unreachable or guarded for every pair tree the grammar can produce, re-derived from gsd.pest and the MIR on each run. Of `reproduces what the file says` it decides structural necessary conditions only: extended prm data is never overwritten by the legacy commit, <rate>_supp / MaxTsdr_<rate> keywords reach the matching flag / field, keywords recognised in code are compared case-insensitively, long-line markers are removed from string literals for LF and CR LF (when the cleaning code has the recognised replace-chain shape). Field-by-field equality with the file text is not decided.",
    note="Trusted: " + TB + "; pest_meta parser/optimizer (engines/pestshape); conformance of the pest runtime and pest_derive output to the grammar (generated code checked free of panic sites); std functions outside analysis/panics.py:MAY_PANIC_EXTERN do not panic.", ref="§4-C19"),
  "C20": dict(level="other", technique="static analysis: sibling-arm table extraction (conversion target, width, endianness), dependency check of bit-field stores on the previous byte, must-guard and per-path/per-iteration counters for check-before-write over the rustc MIR of gsd-parser",
-   text="Decides the per-type encoding table (signed types through their signed type, big-endian, widths, size()), the read-modify-write dependency and range guards of bit fields, that nothing is written on a path returning an error, that the declared constraint is checked before the write, that names/texts are resolved before any write and that every default is written unconditionally. One recorded known finding (BitArea overwrites the whole byte; its repair would change a pinned snapshot). The overlay over whole layouts as a value relation is not decided.",
+   text="Decides the per-type encoding table (signed types through their signed type, big-endian, widths, size()), the read-modify-write dependency and range guards of bit fields, that nothing is written on a path returning an error, that the declared constraint is checked before the write, that names/texts are resolved before any write and that every default is written unconditionally. One recorded known finding (BitArea overwrites the whole byte; its repair would change a pinned snapshot). The overlay over whole layouts as a value relation is not decided. The enumeration constraint is an order-independent membership test.",
    note="Trusted: " + TB + ".", ref="§4-C20"),
 }
 
